@@ -6,6 +6,8 @@ import SekaiProofs.Props.C11
 import SekaiProofs.Props.C16
 import SekaiProofs.Props.C18
 import SekaiProofs.Props.C20
+import Sekai.Gen.App
+import Sekai.Model.App
 /-! # C04 — Supply is conserved and every module can pay what it owes
 
 * bank level: `conservation` — for every sequence of send / mint / burn over any set of accounts, the supply of each
@@ -180,5 +182,14 @@ def expectedFlows : List (String × String × String × String) := [
 ]
 
 theorem coin_flows_as_reviewed : Sekai.Gen.BankFlows.flows = expectedFlows := by decide +kernel
+
+/-! ### Application wiring (table `Gen.App`) -/
+
+/-- every burn call site names a module account that holds the Burner permission, every mint call site one that holds
+the Minter permission: `Bank.mint` / `Bank.burn` are applied only where the real bank keeper does not panic -/
+theorem mint_burn_sites_are_permitted :
+    ((Sekai.Gen.BankFlows.mintBurn.filter fun r => !r.1.startsWith "x/tokens/" && !r.1.startsWith "app/").all fun r =>
+      (Sekai.App.holders Sekai.Gen.App.maccPerms (if r.2.2.1.endsWith "MintCoins" then "authtypes.Minter" else "authtypes.Burner")).contains
+        (Sekai.App.siteModule r.1 r.2.2.2)) = true := by decide +kernel
 
 end Sekai.Props.C04
